@@ -123,7 +123,101 @@ pub fn generate(family: &str, rng: &mut Rng) -> Case {
     match family {
         "C08" => gen_registry(rng),
         "C16" => gen_children(rng),
+        "C09" => gen_broker(rng),
         _ => gen_actor(&profile(family), rng),
+    }
+}
+
+/// C09: 1-3 publishers (client tasks and actors via Context::publish), 1-4 subscribers, 1-2 topics;
+/// subscribe / re-subscribe / unsubscribe / terminate at arbitrary positions.
+fn gen_broker(rng: &mut Rng) -> Case {
+    let ntopics = 1 + rng.below(2);
+    let nsubs = 1 + rng.below(4);
+    let nclients = 1 + rng.below(3);
+    let mut setup = vec![];
+    let mut next_m = 0usize;
+    let mut next_pub = 1000usize;
+    for a in 0..nsubs {
+        let mut beh = Behaviour::default();
+        let mut st = vec![];
+        if rng.chance(1, 2) {
+            st.push(Act::Subscribe(rng.below(ntopics)));
+        }
+        beh.started = vec![st];
+        if rng.chance(1, 5) {
+            beh.tick.push(Act::Work(1 + rng.below(3) as u64));
+        }
+        let cap = if rng.chance(1, 4) { Some(rng.below(3)) } else { None };
+        let spec = SpawnSpec { k: 0, cap, behaviour: beh, ..default_spec() };
+        setup.push(Op::Spawn { a, spec, h: a });
+    }
+    // every client gets its own clone of every subscriber's address
+    let hof = |c: usize, a: usize| 10 + c * 8 + a;
+    for c in 0..nclients {
+        for a in 0..nsubs {
+            setup.push(Op::ToAddr { h: a, h2: hof(c, a) });
+        }
+    }
+    for a in 0..nsubs {
+        if rng.chance(1, 2) {
+            setup.push(Op::Drop { h: a });
+        }
+    }
+    let mut clients: Vec<Vec<Op>> = vec![];
+    let mut npubs = 0;
+    for c in 0..nclients {
+        let mut ops = vec![];
+        let nops = 2 + rng.below(6);
+        for _ in 0..nops {
+            let j = rng.below(ntopics);
+            let a = rng.below(nsubs);
+            let h = hof(c, a);
+            match rng.below(14) {
+                0 | 1 | 2 | 3 => {
+                    next_pub += 1;
+                    npubs += 1;
+                    ops.push(Op::Publish { j, m: next_pub, via: rng.below(2) });
+                }
+                4 | 5 => {
+                    // an actor publishes from its handler (Context::publish)
+                    next_pub += 1;
+                    next_m += 1;
+                    npubs += 1;
+                    ops.push(Op::Send { h, m: next_m, script: vec![Act::Publish { j, m: next_pub }] });
+                }
+                6 | 7 => ops.push(Op::BSubscribe { j, h }),
+                8 => {
+                    next_m += 1;
+                    ops.push(Op::Call { h, m: next_m, script: vec![Act::Subscribe(j)] });
+                }
+                9 | 10 => ops.push(Op::BUnsubscribe { j, h }),
+                11 => {
+                    if rng.chance(1, 2) {
+                        ops.push(Op::Stop { h })
+                    } else {
+                        next_m += 1;
+                        ops.push(Op::Send { h, m: next_m, script: vec![Act::CtxStop] });
+                    }
+                }
+                _ => ops.push(if rng.chance(1, 2) { Op::Sleep(1 + rng.below(3) as u64) } else { Op::Yield }),
+            }
+        }
+        clients.push(ops);
+    }
+    let prompt = rng.chance(5, 10);
+    Case {
+        program: Program { setup, clients },
+        sched: sched(rng),
+        prompt,
+        horizon: 100,
+        cancel: None,
+        tags: vec![
+            format!("topics={}", ntopics),
+            format!("subs={}", nsubs),
+            format!("clients={}", nclients),
+            format!("pubs={}", npubs),
+            format!("prompt={}", prompt as u8),
+        ],
     }
 }
 
